@@ -4862,7 +4862,7 @@ func (p *printer) printStmt(stmt js_ast.Stmt, flags printStmtFlags) {
 		p.addSourceMapping(stmt.Loc)
 		p.printIndent()
 		p.printSpaceBeforeIdentifier()
-		p.printQuotedUTF16(s.Value, 0)
+		p.printQuotedUTF16(s.Value, printQuotedNoWrap) // A directive with a line continuation is not a directive
 		p.printSemicolonAfterStatement()
 
 	case *js_ast.SBreak:
